@@ -13,14 +13,14 @@ import (
 
 // Interp is the interpreter state of one path execution.
 type Interp struct {
-	prog    *ssa.Program
-	globals map[*ssa.Global]*value
-	p       *Path
-	x       *Explorer
-	top     *frame
-	depth   int
-	funcs   map[string]int // function -> instructions executed
-	bigs    map[*value]*bigval
+	prog     *ssa.Program
+	globals  map[*ssa.Global]*value
+	p        *Path
+	x        *Explorer
+	top      *frame
+	depth    int
+	funcs    map[string]int // function -> instructions executed
+	bigs     map[*value]*bigval
 	initDone bool
 }
 
@@ -312,6 +312,14 @@ func (in *Interp) visitInstr(fr *frame, instr ssa.Instruction) continuation {
 		case string:
 			fr.env[instr] = mkInt(8, false, uint64(x[in.index(idx, len(x))]))
 		case *sstr:
+			if x.b == nil && x.lazy != nil {
+				if iv, ok := idx.(ival); ok && iv.t == nil {
+					if pre := x.lazy.literalPrefix(); int(iv.c) < len(pre) {
+						fr.env[instr] = mkInt(8, false, uint64(pre[iv.c]))
+						break
+					}
+				}
+			}
 			b := in.sbytes(x)
 			fr.env[instr] = b[in.index(idx, len(b))]
 		default:
